@@ -49,6 +49,37 @@ func VerifC16_DatePairs() {
 	verifReach("c16.date.pairs")
 }
 
+// dates converted from clock readings in different locations (types.Date(t)): the verdicts follow each date's own
+// (year, month, day), not the order of the instants
+func c16DateIn(tag string, loc *time.Location) (Date, int, int, int) {
+	y := nondetInt(tag + ".y")
+	m := nondetInt(tag + ".m")
+	d := nondetInt(tag + ".d")
+	h := nondetInt(tag + ".h")
+	mi := nondetInt(tag + ".mi")
+	verifAssume(y >= 2 && y <= 9998)
+	verifAssume(verifValidDate(y, m, d))
+	verifAssume(h >= 0 && h <= 23 && mi >= 0 && mi <= 59)
+	return Date(time.Date(y, time.Month(m), d, h, mi, 0, 0, loc)), y, m, d
+}
+
+func VerifC16_DatePairsAcrossLocations() {
+	verifZone(1)
+	a, ay, am, ad := c16DateIn("a", time.UTC)
+	b, by, bm, bd := c16DateIn("b", time.Local)
+	before, after, equal := a.Before(b), a.After(b), a.Equals(b)
+	verifObserve("before", before)
+	verifObserve("after", after)
+	verifObserve("equal", equal)
+	verifAssert(b2i(before)+b2i(after)+b2i(equal) == 1, "date (two locations): exactly one of before/equal/after")
+	verifAssert(before == b.After(a), "date (two locations): before is the mirror image of after")
+	verifAssert(after == b.Before(a), "date (two locations): after is the mirror image of before")
+	verifAssert(before == specLexLess3(ay, am, ad, by, bm, bd), "date (two locations): before agrees with (year, month, day) order")
+	verifAssert(after == specLexLess3(by, bm, bd, ay, am, ad), "date (two locations): after agrees with (year, month, day) order")
+	verifAssert(equal == (ay == by && am == bm && ad == bd), "date (two locations): equals agrees with (year, month, day)")
+	verifReach("c16.date.pairs.locations")
+}
+
 func VerifC16_DateTransitive() {
 	verifZone(1)
 	a, _, _, _ := c16Date("a")
